@@ -13,6 +13,8 @@
 #include <netinet/in.h>
 #include <sys/stat.h>
 #include <sys/wait.h>
+#include <arpa/inet.h>
+#include <netinet/in.h>
 #include <sys/epoll.h>
 #include <sys/eventfd.h>
 #include <sys/timerfd.h>
@@ -238,6 +240,54 @@ static void run_ctl(FILE *o, int nclients)
     fprintf(o, "clients=%d attached=%d eof_seen=%d fds=%d/%d ctl_file_left=%d%s%s\n", nclients, attached, eofs, nb, na, file_left, na != nb ? " after=" : "", na != nb ? after : "");
 }
 
+/* RESOLVING <proto>: sockets closed (and, in a forked child, cleaned up) while the DNS queries of a non-blocking connect - the
+   remote name's and the one for a DNS name in xcm.local_addr - are still outstanding: a silent UDP sink on 127.0.0.1:53 (the
+   resolver of this sandbox) keeps them pending.  Nothing may be left: descriptors, heap. */
+static void run_resolving(FILE *o, const char *proto)
+{
+    int sink = __real_socket(AF_INET, SOCK_DGRAM, 0);
+    struct sockaddr_in sa = { .sin_family = AF_INET, .sin_port = htons(53) };
+    inet_pton(AF_INET, "127.0.0.1", &sa.sin_addr);
+    if (sink < 0 || __real_bind(sink, (struct sockaddr *)&sa, sizeof(sa)) < 0) { fprintf(o, "skip cannot bind 127.0.0.1:53 (%s)\n", h_errname(errno)); return; }
+    char before[4000], after[4000];
+    /* warm up c-ares' one-time state */
+    for (int w = 0; w < 2; w++) {
+	struct xcm_attr_map *m = sys_base_attrs(proto, true);
+	char ra[128]; snprintf(ra, sizeof(ra), "%s:warm%d.verif.test:4711", proto, w);
+	struct xcm_socket *c = xcm_connect_a(ra, m); xcm_attr_map_destroy(m);
+	if (c) xcm_close(c);
+    }
+    int nb = count_fds(before, sizeof(before));
+    int made = 0, child_left = -1;
+    for (int i = 0; i < 12; i++) {
+	struct xcm_attr_map *m = sys_base_attrs(proto, true);
+	char la[128], ra[128];
+	snprintf(la, sizeof(la), "%s:local%d.verif.test:0", proto, i);
+	/* remote: a name (both queries pending), or an address (only the local name's query) */
+	if (i % 2) snprintf(ra, sizeof(ra), "%s:remote%d.verif.test:4711", proto, i); else snprintf(ra, sizeof(ra), "%s:127.0.0.1:4711", proto);
+	if (i % 3) xcm_attr_map_add_str(m, "xcm.local_addr", la);
+	struct xcm_socket *c = xcm_connect_a(ra, m);
+	xcm_attr_map_destroy(m);
+	if (!c) continue;
+	made++;
+	xcm_finish(c);
+	if (i == 5) {
+	    /* a child drops its copy of the socket in mid-resolution */
+	    int pfd[2]; pipe(pfd);
+	    pid_t pid = fork();
+	    /* the child then holds: the baseline minus the sink plus the pipe's write end = as many as the baseline */
+	    if (pid == 0) { char l[4000]; __real_close(pfd[0]); xcm_cleanup(c); __real_close(sink); int n = count_fds(l, sizeof(l)); dprintf(pfd[1], "%d\n", n); _exit(0); }
+	    __real_close(pfd[1]); char b[32] = ""; read(pfd[0], b, sizeof(b) - 1); __real_close(pfd[0]); int st; waitpid(pid, &st, 0);
+	    child_left = atoi(b);
+	}
+	xcm_close(c);
+    }
+    int na = count_fds(after, sizeof(after));
+    int heap = __lsan_do_recoverable_leak_check();
+    fprintf(o, "made=%d fds=%d/%d child_fds=%d(parent had %d) heap_leak=%d%s%s\n", made, nb, na, child_left, nb, heap ? 1 : 0, na != nb ? " after=" : "", na != nb ? after : "");
+    __real_close(sink);
+}
+
 int main(void)
 {
     static char line[H_LINE_MAX];
@@ -291,7 +341,7 @@ int main(void)
 	    if (WIFSIGNALED(st)) fprintf(o, "crash signal=%d\n", WTERMSIG(st));
 	    else if (WEXITSTATUS(st) != 0 || got == 0) fprintf(o, "crash exit=%d\n", WEXITSTATUS(st));
 	    else fputs(b, o);
-	} else if ((!strcmp(w[0], "FORK") || !strcmp(w[0], "CTL")) && n == 2) {
+	} else if ((!strcmp(w[0], "FORK") || !strcmp(w[0], "CTL") || !strcmp(w[0], "RESOLVING")) && n == 2) {
 	    /* isolated in a child like every case */
 	    fflush(o);
 	    int pfd[2]; pipe(pfd);
@@ -299,7 +349,7 @@ int main(void)
 	    if (pid == 0) {
 		__real_close(pfd[0]);
 		FILE *po = fdopen(pfd[1], "w");
-		if (!strcmp(w[0], "FORK")) run_fork(po, w[1]); else run_ctl(po, atoi(w[1]));
+		if (!strcmp(w[0], "FORK")) run_fork(po, w[1]); else if (!strcmp(w[0], "RESOLVING")) run_resolving(po, w[1]); else run_ctl(po, atoi(w[1]));
 		fflush(po);
 		_exit(0);
 	    }
